@@ -101,6 +101,7 @@ type victimTracer struct {
 	problems               []string // oracle (3) violations noticed while the run goes on
 	crashOpen              []int64
 	planLeft               int  // crash points not reached when the scheduled part of the run ended
+	crashedEvalsWaiting    bool // some crash happened while evaluations of the victim waited in poly_evals for a receiver's check-in
 	crashedMidRange        bool // some crash fell between the block transactions of one multi-block sync range
 	crashedMidRangeDKG     bool // ... and a block already committed in that range changes the DKG state
 	crashedAfterCommitOnly bool // some crash happened while the last DKG-relevant block applied carried only commitments
@@ -384,6 +385,9 @@ func (vt *victimTracer) step(r *Run, n *Node, budget int) error {
 		if vt.afterCommitmentOnlyBlock() {
 			vt.crashedAfterCommitOnly = true
 		}
+		if len(n.Srv.Rows("poly_evals")) > 0 {
+			vt.crashedEvalsWaiting = true
+		}
 		// between the per-block transactions of a multi-block range: at least
 		// one block of this iteration's range is committed, at least one is not
 		if now, rangeEnd := n.syncedTo(), open-3; len(marks) > 0 && now > startedAt && now < rangeEnd {
@@ -487,6 +491,7 @@ type c08Result struct {
 	crashedAfterCommitOnly bool
 	crashedMidRange        bool
 	crashedMidRangeDKG     bool
+	crashedEvalsWaiting    bool
 	persistFailed          bool
 	divergence             string
 }
@@ -498,7 +503,9 @@ type c08Result struct {
 // crash; every honest keyper still succeeds in the crash-free twin. Variant 3
 // is all honest with one broadcast per keyper and block. Variants 4 and 5 make
 // the victim lag (it iterates every 2nd / 3rd block), so that its sync ranges
-// hold several blocks with one database transaction each.
+// hold several blocks with one database transaction each. In variants 6 and 7
+// one / two other keypers check in only after the eon has started, so the
+// victim's evaluations for them wait in poly_evals for some blocks.
 func c08Scenario(variant, victim int) Scenario {
 	orders := [][]int{{0, 1, 2}, {2, 0, 1}, {1, 2, 0}}
 	sc := Scenario{N: 3, T: 2, L: 8, Order: orders[variant%len(orders)], Byz: map[int]ByzStrategy{}, Fair: true, ForkEnabled: variant%2 == 0, Tail: 8}
@@ -513,6 +520,18 @@ func c08Scenario(variant, victim int) Scenario {
 		// commitment and evals of a keyper land in three consecutive blocks,
 		// so there are blocks that carry nothing but commitments
 		sc.PlainBudget = 1
+	}
+	if variant == 6 {
+		// the process of a third keyper comes up late: its check-in - the
+		// encryption key the victim's evaluation for it waits for in poly_evals -
+		// lands two blocks after EonStarted; the victim sends that evaluation
+		// three blocks later, still inside the dealing phase
+		sc.StartLate = map[int]int{(victim + 1) % 3: 2}
+	}
+	if variant == 7 {
+		// four keypers, two of them late (1 and 3 blocks after the eon start)
+		sc.N, sc.L, sc.Order = 4, 10, []int{0, 1, 2, 3}
+		sc.StartLate = map[int]int{(victim + 1) % 4: 1, (victim + 3) % 4: 3}
 	}
 	if variant == 4 {
 		// the victim is a slow node: it iterates only every second block and
@@ -577,6 +596,7 @@ func runC08(sc Scenario, victim int, plan []crashPoint, ref *c08Result, fail fai
 	res.crashedPending = vt.crashedPending
 	res.crashedAfterCommitOnly = vt.crashedAfterCommitOnly
 	res.crashedMidRange, res.crashedMidRangeDKG = vt.crashedMidRange, vt.crashedMidRangeDKG
+	res.crashedEvalsWaiting = vt.crashedEvalsWaiting
 	if res.execErr != nil || len(res.unsupported) > 0 {
 		if res.execErr != nil && len(res.unsupported) == 0 {
 			fail("no-progress", "%v\ncrashes: %v\n%s", res.execErr, vt.crashes, r.history())
@@ -623,6 +643,12 @@ func runC08(sc Scenario, victim int, plan []crashPoint, ref *c08Result, fail fai
 	res.stats, _ = r.checkAgreement(func(sig, f string, a ...any) {
 		fail(sig, f+"\nvictim k%d crashes: %v", append(a, victim, vt.crashes)...)
 	}, true)
+	if !res.stats.Premise {
+		// in the crash-free twin every DKG message of every honest keyper lands inside its phase
+		// (evaluations included, also those for keypers that checked in late); one lost
+		// iteration per crash leaves room for that
+		fail("honest-message-late-or-never-sent", "%s (in the crash-free twin every honest DKG message is on chain inside its phase)\n%s", res.stats.PremiseWhy, hist())
+	}
 	if res.stats.Successes != len(sc.honest()) {
 		fail("outcome-differs-from-twin", "crash-free twin: all %d honest keypers succeed; with the crash: successes=%d failures=%d without result=%d\n%s",
 			len(sc.honest()), res.stats.Successes, res.stats.Failures, res.stats.NoRow, hist())
@@ -803,7 +829,7 @@ func canonRows(rows []map[string]any) string {
 
 // ---------------------------------------------------------------------------
 
-const c08Rule = "case = (victim keyper, crash point) in a DKG run in which the crash-free twin succeeds (n=3,t=2,L=8, every keyper one sync+onchain+send iteration per block; variants: all honest with two keyper-set orders and check-in fork on/off; one Byzantine keyper that deals a wrong eval to the victim and accuses it falsely, so that the victim also has an accusation and an apology to get through): every client->database round trip k of the victim observed in a crash-free reference run x {connection lost before the request, request executed (COMMIT applied) but reply lost}, and every accepted BroadcastTxCommit x {process dies before the outbox row is deleted}; a fourth variant sends one message per keyper and block (commitment-only blocks exist); in a fifth and sixth the victim is a slow node that runs its main loop only every 2nd / 3rd block (the sixth together with the Byzantine dealer, L=10), so that it catches up over sync ranges of several blocks with one transaction each and crash points lie between them; quick runs the one-message variant, the Byzantine variant and the every-2nd-block variant with victim k1 and every 6th database point, thorough all six variants, all three victims, every point and sampled pairs of crashes. In addition, in every run (crash-free twin included), after every main-loop iteration of every honest keyper that ended without error, and after every per-block transaction inside a sync range, the PureDKG objects in the keyper's memory (read through reflect) must equal the puredkg rows decoded from its database: what a keyper knows after a committed block must be persisted. Non-trivial = the crash fell inside an open database transaction (block-tx, block-commit, onchain-tx, onchain-commit), on the outbox delete, or between an accepted broadcast and the delete (as opposed to an idle poll or a BEGIN). Distinct = (variant, victim, crash points)."
+const c08Rule = "case = (victim keyper, crash point) in a DKG run in which the crash-free twin succeeds (n=3,t=2,L=8, every keyper one sync+onchain+send iteration per block; variants: all honest with two keyper-set orders and check-in fork on/off; one Byzantine keyper that deals a wrong eval to the victim and accuses it falsely, so that the victim also has an accusation and an apology to get through): every client->database round trip k of the victim observed in a crash-free reference run x {connection lost before the request, request executed (COMMIT applied) but reply lost}, and every accepted BroadcastTxCommit x {process dies before the outbox row is deleted}; a fourth variant sends one message per keyper and block (commitment-only blocks exist); in a fifth and sixth the victim is a slow node that runs its main loop only every 2nd / 3rd block (the sixth together with the Byzantine dealer, L=10), so that it catches up over sync ranges of several blocks with one transaction each and crash points lie between them; in a seventh and eighth one / two other keypers come up late and check in 1-3 blocks after the eon start (n=4, L=10 for two), so that evaluations of the victim wait in poly_evals for a receiver's encryption key while it crashes; quick (every seed) runs the one-message variant, the Byzantine variant and the every-2nd-block variant with victim k1 and every 7th database point, plus the one-late-keyper variant restricted to the blocks h0+2..h0+8 around the late check-in with every 3rd point, thorough all eight variants, all three victims, every point and sampled pairs of crashes. In addition, in every run (crash-free twin included), after every main-loop iteration of every honest keyper that ended without error, and after every per-block transaction inside a sync range, the PureDKG objects in the keyper's memory (read through reflect) must equal the puredkg rows decoded from its database: what a keyper knows after a committed block must be persisted. Non-trivial = the crash fell inside an open database transaction (block-tx, block-commit, onchain-tx, onchain-commit), on the outbox delete, or between an accepted broadcast and the delete (as opposed to an idle poll or a BEGIN). Distinct = (variant, victim, crash points)."
 
 func c08Assumptions(rec *Recorder) {
 	rec.Assume(
@@ -842,10 +868,10 @@ func TestC08_CrashRecovery(t *testing.T) {
 	rec.AddRule(c08Rule)
 	c08Assumptions(rec)
 
-	variants := []int{3, 2, 4}
+	variants := []int{3, 2, 4, 6}
 	victims := []int{1}
 	if thorough() {
-		variants = []int{0, 1, 2, 3, 4, 5}
+		variants = []int{0, 1, 2, 3, 4, 5, 6, 7}
 		victims = []int{0, 1, 2}
 	}
 	caseNo := 0
@@ -917,8 +943,20 @@ func TestC08_CrashRecovery(t *testing.T) {
 				}
 			} else {
 				// quick: a slice of the single points chosen by the seed (stratified over the run), all rpc points
-				const stride = 6
+				stride := 7
 				for i, p := range points {
+					if variant == 6 {
+						// the rest of this run looks like variant 0: only the blocks around
+						// the late check-in, every 3rd point
+						stride = 3
+						if p.Kind == "db" {
+							if o := ref.units[p.K-1].Open; o < ref.h0+2 || o > ref.h0+8 {
+								continue
+							}
+						} else if !strings.HasPrefix(ref.bcasts[p.K-1], "commitment") && !strings.HasPrefix(ref.bcasts[p.K-1], "polyeval") {
+							continue
+						}
+					}
 					if p.Kind == "rpc" || i%stride == seed%stride {
 						plans = append(plans, []crashPoint{p})
 					}
@@ -1011,6 +1049,9 @@ func TestC08_CrashRecovery(t *testing.T) {
 				}
 				if res.crashedAfterCommitOnly {
 					labels = append(labels, "crash-after-commitment-only-block")
+				}
+				if res.crashedEvalsWaiting {
+					labels = append(labels, "crash-while-evals-wait-for-a-check-in")
 				}
 				if res.crashedMidRange {
 					labels = append(labels, "crash-between-blocks-of-multi-block-range")
